@@ -1,9 +1,10 @@
-use dashu_float::{round::mode, FBig};
+use dashu_float::{round::mode, Context, Repr};
 use dashu_int::IBig;
-type F = FBig<mode::Down, 3>;
 fn main() {
-    let p: usize = std::env::args().nth(1).unwrap().parse().unwrap();
-    let x = F::from_parts(IBig::from(4396), -8).with_precision(p).value();
-    let y = x.exp();
-    println!("{} {}", y.repr().significand(), y.repr().exponent());
+    let c = Context::<mode::HalfAway>::new(3);
+    let x = Repr::<3>::new(IBig::from(10460353202u64), -18);
+    println!("powi = {:?}", c.powi(&x, 12.into()));
+    let w = Context::<mode::HalfAway>::new(9);
+    println!("sqr = {:?}", w.sqr(&x));
+    println!("mul = {:?}", w.mul(&x, &x));
 }
